@@ -174,6 +174,9 @@ func checkC01(c *Ctx) {
 	checkC01Sweep(c)
 	checkC01Awkward(c)
 	checkC01DeepNesting(c)
+	checkC01Positions(c)
+	checkC01LimitParity(c)
+	checkC01StrayAfterLoop(c)
 
 	c.Set("exhaustive", true)
 	c.Set("bounds", map[string]any{"MaxDepth": maxDepth})
